@@ -79,3 +79,36 @@ def covers(G, routes, ignore=()):
         if e not in ign and e not in seen:
             return f"edge {e} is not covered"
     return None
+
+
+# ---- appended for the cyclic models (C04 and friends) ----
+def subset_constraints_covered(cons, routes, coverage=1.0):
+    """walk models: each constraint is a SET of edges; some single walk must use >= coverage * |set| of them"""
+    for c in cons or []:
+        cs = set(map(tuple, c))
+        need = len(cs) * coverage - 1e-9
+        if not any(sum(1 for e in cs if e in set(route_edges(r))) >= need for r in routes):
+            return f"subset constraint {sorted(cs)} not covered to {coverage} by a single walk"
+    return None
+
+
+def walk_decomposition_ok(G, attr, walks, weights, weight_type, ignore=(), cons=(), coverage=1.0, tol=1e-6):
+    """C01 + C02 + C10 clauses for a solution of a cyclic flow-decomposition model, evaluated directly on the
+    caller's graph.  Returns None or the reason."""
+    if len(walks) != len(weights):
+        return "number of weights differs from number of walks"
+    for w in walks:
+        why = valid_route(G, w)
+        if why:
+            return f"walk {w}: {why}"
+    for x in weights:
+        if weight_type == int and not isinstance(x, int):
+            return f"weight {x!r} has type {type(x).__name__}, requested int"
+        if weight_type == float and not isinstance(x, (int, float)):
+            return f"weight {x!r} has type {type(x).__name__}, requested float"
+        if x < -1e-9:
+            return f"negative weight {x!r}"
+    why = explains_flow(G, attr, walks, weights, ignore=ignore, exact=(weight_type == int), tol=tol)
+    if why:
+        return why
+    return subset_constraints_covered(cons, walks, coverage)
